@@ -365,8 +365,84 @@ MUTATIONS = [
      "InverseCondition::inverse(conds, &ax, ay)", "InverseCondition::inverse(conds, ay, ay)", "gen_abduce_with_eq"),
     ("Discount for OpinionRef: t squared", "mul.rs", "(self.simplex.discount(t), (*self.base_rate).clone()).into()",
      "(self.simplex.discount(t * t), (*self.base_rate).clone()).into()", "gen_OpinionRef_discount_eq"),
-    ("product2 (unlabelled): - -> + in b", "mul/non_labeled.rs", "let b = MArr2::from_fn(|d| p[d] - a[d] * u);",
-     "let b = MArr2::from_fn(|d| p[d] + a[d] * u);", "gen_product2_eq"),
+    ("product2 (unlabelled): - -> + in b", "mul/non_labeled.rs", "let b = p[d] - a[d] * u;",
+     "let b = p[d] + a[d] * u;", "gen_product2_eq"),
+    # repair b817f74: clamp of the rounding residue of every joint belief mass in the four product bodies
+    ("product clamp (unlabelled product2): removed", "mul/non_labeled.rs",
+     "let b = MArr2::from_fn(|d| {\n            let b = p[d] - a[d] * u;\n            if b < V::zero() {\n                V::zero()\n"
+     "            } else {\n                b\n            }\n        });",
+     "let b = MArr2::from_fn(|d| p[d] - a[d] * u);", ("exact", 0, {"gen_product2_eq"})),
+    ("product clamp (unlabelled product2): `<` -> `>`", "mul/non_labeled.rs",
+     "a[d] * u;\n            if b < V::zero() {", "a[d] * u;\n            if b > V::zero() {",
+     ("exact", 0, {"gen_product2_eq"})),
+    ("product clamp (unlabelled product2): `<` -> `<=`", "mul/non_labeled.rs",
+     "a[d] * u;\n            if b < V::zero() {", "a[d] * u;\n            if b <= V::zero() {",
+     ("exact", 0, {"gen_product2_eq"})),
+    ("product clamp (unlabelled product2): clamped to one instead of zero", "mul/non_labeled.rs",
+     "a[d] * u;\n            if b < V::zero() {\n                V::zero()", "a[d] * u;\n            if b < V::zero() {\n                V::one()",
+     ("exact", 0, {"gen_product2_eq"})),
+    ("product clamp (unlabelled product2): branches swapped", "mul/non_labeled.rs",
+     "a[d] * u;\n            if b < V::zero() {\n                V::zero()\n            } else {\n                b\n",
+     "a[d] * u;\n            if b < V::zero() {\n                b\n            } else {\n                V::zero()\n",
+     ("exact", 0, {"gen_product2_eq"})),
+    ("product clamp (unlabelled product2): compares u instead of b", "mul/non_labeled.rs",
+     "a[d] * u;\n            if b < V::zero() {", "a[d] * u;\n            if u < V::zero() {",
+     ("exact", 0, {"gen_product2_eq"})),
+    ("product clamp (unlabelled product2): clamps u instead of the masses", "mul/non_labeled.rs",
+     "let b = MArr2::from_fn(|d| {\n            let b = p[d] - a[d] * u;\n            if b < V::zero() {\n                V::zero()\n"
+     "            } else {\n                b\n            }\n        });\n        Opinion::new(b, u, a)",
+     "let b = MArr2::from_fn(|d| p[d] - a[d] * u);\n        Opinion::new(b, if u < V::zero() { V::zero() } else { u }, a)",
+     ("exact", 0, {"gen_product2_eq"})),
+    ("product clamp (unlabelled product3): removed (product2 untouched)", "mul/non_labeled.rs",
+     "let b = MArr3::from_fn(|d| {\n            let b = p[d] - a[d] * u;\n            if b < V::zero() {\n                V::zero()\n"
+     "            } else {\n                b\n            }\n        });",
+     "let b = MArr3::from_fn(|d| p[d] - a[d] * u);", ("exact", 0, {"gen_product3_eq"})),
+    ("product clamp (labelled product2): removed", "mul/labeled.rs",
+     "let b = MArrD2::<D0, D1, V>::from_iter(p_iter.zip(&a).map(|(p, &a)| {\n            let b = p - a * u;\n"
+     "            if b < V::zero() {\n                V::zero()\n            } else {\n                b\n            }\n        }));",
+     "let b = MArrD2::<D0, D1, V>::from_iter(p_iter.zip(&a).map(|(p, &a)| p - a * u));",
+     ("exact", 0, {"gen_product2_labeled_eq"})),
+    ("product clamp (labelled product2): `<` -> `>`", "mul/labeled.rs",
+     "let b = p - a * u;\n            if b < V::zero() {", "let b = p - a * u;\n            if b > V::zero() {",
+     ("exact", 0, {"gen_product2_labeled_eq"})),
+    ("product clamp (labelled product2): `<` -> `<=`", "mul/labeled.rs",
+     "let b = p - a * u;\n            if b < V::zero() {", "let b = p - a * u;\n            if b <= V::zero() {",
+     ("exact", 0, {"gen_product2_labeled_eq"})),
+    ("product clamp (labelled product2): clamped to one instead of zero", "mul/labeled.rs",
+     "let b = p - a * u;\n            if b < V::zero() {\n                V::zero()",
+     "let b = p - a * u;\n            if b < V::zero() {\n                V::one()",
+     ("exact", 0, {"gen_product2_labeled_eq"})),
+    ("product clamp (labelled product2): branches swapped", "mul/labeled.rs",
+     "let b = p - a * u;\n            if b < V::zero() {\n                V::zero()\n            } else {\n                b\n",
+     "let b = p - a * u;\n            if b < V::zero() {\n                b\n            } else {\n                V::zero()\n",
+     ("exact", 0, {"gen_product2_labeled_eq"})),
+    ("product clamp (labelled product2): compares u instead of b", "mul/labeled.rs",
+     "let b = p - a * u;\n            if b < V::zero() {", "let b = p - a * u;\n            if u < V::zero() {",
+     ("exact", 0, {"gen_product2_labeled_eq"})),
+    ("product clamp (labelled product2): compares the base-rate cell instead of b", "mul/labeled.rs",
+     "let b = p - a * u;\n            if b < V::zero() {", "let b = p - a * u;\n            if a < V::zero() {",
+     ("exact", 0, {"gen_product2_labeled_eq"})),
+    ("product clamp (labelled product2): clamps u instead of the masses", "mul/labeled.rs",
+     "let b = MArrD2::<D0, D1, V>::from_iter(p_iter.zip(&a).map(|(p, &a)| {\n            let b = p - a * u;\n"
+     "            if b < V::zero() {\n                V::zero()\n            } else {\n                b\n            }\n        }));\n"
+     "        Opinion::normalized(b, u, a)",
+     "let b = MArrD2::<D0, D1, V>::from_iter(p_iter.zip(&a).map(|(p, &a)| p - a * u));\n"
+     "        Opinion::normalized(b, if u < V::zero() { V::zero() } else { u }, a)",
+     ("exact", 0, {"gen_product2_labeled_eq"})),
+    ("product clamp (labelled product3): removed (product2 untouched)", "mul/labeled.rs",
+     "let b = MArrD3::<D0, D1, D2, _>::from_iter(p_iter.zip(&a).map(|(p, &a)| {\n            let b = p - a * u;\n"
+     "            if b < V::zero() {\n                V::zero()\n            } else {\n                b\n            }\n        }));",
+     "let b = MArrD3::<D0, D1, D2, _>::from_iter(p_iter.zip(&a).map(|(p, &a)| p - a * u));",
+     ("exact", 0, {"gen_product3_labeled_eq"})),
+    ("product clamp (labelled product2): written `(p - a * u).max(V::zero())` (0 instead of NaN on a NaN mass: the tie must BREAK)", "mul/labeled.rs",
+     "let b = MArrD2::<D0, D1, V>::from_iter(p_iter.zip(&a).map(|(p, &a)| {\n            let b = p - a * u;\n"
+     "            if b < V::zero() {\n                V::zero()\n            } else {\n                b\n            }\n        }));",
+     "let b = MArrD2::<D0, D1, V>::from_iter(p_iter.zip(&a).map(|(p, &a)| (p - a * u).max(V::zero())));",
+     ("exact", 0, {"gen_product2_labeled_eq"})),
+    ("product clamp (labelled product2): shape outside the subset (`match b < V::zero()`) => hole", "mul/labeled.rs",
+     "let b = p - a * u;\n            if b < V::zero() {\n                V::zero()\n            } else {\n                b\n            }\n",
+     "let b = p - a * u;\n            match b < V::zero() {\n                true => V::zero(),\n                false => b,\n            }\n",
+     ("exact", 3, {"gen_product2_labeled_eq", "gen_merge_cond2_labeled_eq"})),
     ("product2 (unlabelled): base rate uses d[0] twice (kind error => hole)", "mul/non_labeled.rs",
      "MArr2::from_fn(|d| w0.base_rate[d[0]] * w1.base_rate[d[1]])", "MArr2::from_fn(|d| w0.base_rate[d[0]] * w1.base_rate[d[0]])",
      "gen_product2_eq"),
@@ -461,12 +537,10 @@ MUTATIONS = [
     ("into_opinion: no base-rate check", "mul/non_labeled.rs", "check_base_rate(&a)?;\n        Ok(Opinion1d {",
      "Ok(Opinion1d {", "gen_Simplex1d_into_opinion_eq"),
     ("product2 (labelled): p - a*u -> a*u - p in b", "mul/labeled.rs",
-     "MArrD2::<D0, D1, V>::from_iter(p_iter.zip(&a).map(|(p, &a)| p - a * u))",
-     "MArrD2::<D0, D1, V>::from_iter(p_iter.zip(&a).map(|(p, &a)| a * u - p))",
-     "gen_product2_labeled_eq"),
+     "let b = p - a * u;", "let b = a * u - p;", "gen_product2_labeled_eq"),
     ("VALIDATE product2 (labelled): Opinion::new instead of normalized: ill-typed output becomes a hole", "mul/labeled.rs",
-     "let b = MArrD2::<D0, D1, V>::from_iter(p_iter.zip(&a).map(|(p, &a)| p - a * u));\n        Opinion::normalized(b, u, a)",
-     "let b = MArrD2::<D0, D1, V>::from_iter(p_iter.zip(&a).map(|(p, &a)| p - a * u));\n        Opinion::new(b, u, a)",
+     "                b\n            }\n        }));\n        Opinion::normalized(b, u, a)",
+     "                b\n            }\n        }));\n        Opinion::new(b, u, a)",
      ("exact", 3, {"gen_product2_labeled_eq", "gen_merge_cond2_labeled_eq"})),
     ("compute_simlex: harmless commutation in temp", "mul.rs",
      "let temp = lhs_u + rhs_u - lhs_u * rhs_u;", "let temp = lhs_u + rhs_u - rhs_u * lhs_u;",
